@@ -64,6 +64,23 @@ def answer (line : String) : String :=
         | none => "reject"
       | none => "bad-op"
     | _ => "bad-op"
+  | ["plookup", _] => lookupText
+  | "ptable" :: ts =>
+    match parseDfa ts with
+    | some (A, []) =>
+      let rows := tableRows A 1
+      s!"{rows.length} rows {" ".intercalate (rows.map rowText)} pad 0.0.0.0"
+    | _ => "bad-op"
+  | "ptrace" :: ts =>
+    match parseDfa ts with
+    | some (A, ["|", h]) =>
+      match parseHexBytes h with
+      | some bytes =>
+        match parseRows A 1 bytes with
+        | some rows => " ".intercalate (rows.map PRow.text)
+        | none => "stuck"
+      | none => "bad-op"
+    | _ => "bad-op"
   | "parsewith" :: ts =>
     match parseDfa ts with
     | some (A, ["|", w]) =>
